@@ -1,12 +1,24 @@
-"""Which generated files exist and how to produce them (no pandora import)."""
-from . import common, t1_transitions
+"""Discovery of the extractors: every module translator/gen_*.py exposes NAME and generate() -> dict.
+No pandora import happens here: the generated files say what the source text says."""
+import importlib
+import pkgutil
+
+import translator
 
 
-def gen_transitions():
-    tables = t1_transitions.extract()
-    common.write_if_changed("Transitions.lean", t1_transitions.render(tables))
-    return {"T1": {"source": t1_transitions.SRC, "digest": common.digest(t1_transitions.SRC),
-                   "run_rows": len(tables["run"]), "check_rows": len(tables["check"])}}
+def modules():
+    out = []
+    for m in sorted(pkgutil.iter_modules(translator.__path__), key=lambda x: x.name):
+        if m.name.startswith("gen_"):
+            out.append(importlib.import_module(f"translator.{m.name}"))
+    return out
 
 
-ALL = [("Transitions", gen_transitions)]
+def generate(*names):
+    """Run the named extractors (all when no name is given); returns the merged digest dict.
+    Raises translator.common.Unsupported when the source cannot be translated."""
+    out = {}
+    for mod in modules():
+        if not names or mod.NAME in names:
+            out.update(mod.generate())
+    return out
